@@ -232,6 +232,7 @@ def run(ctx):
                 re.compile(item._paths_regex.pattern, item._paths_regex.flags | re.DOTALL), mode, lf_free=True
             )
         except R.Unsupported as e:
+            ctx.harness_error(f"the compiled pattern of glob {g!r} is outside what vf/re2z3.py converts: {e}")
             ctx.ob(f"glob {g!r}", "RZ3", "inconclusive", detail=f"unsupported: {e}")
             continue
         except Exception as e:  # translate itself crashed: that is a violation (a glob in the language must compile)
@@ -324,6 +325,7 @@ def run(ctx):
             l1 = R.language(AnnotationsItem(paths=[g1])._paths_regex, mode)
             l2 = R.language(AnnotationsItem(paths=[g2])._paths_regex, mode)
         except R.Unsupported as e:
+            ctx.harness_error(f"the compiled pattern of globs {g1!r},{g2!r} is outside what vf/re2z3.py converts: {e}")
             ctx.ob(f"pair {g1!r},{g2!r}", "RZ3", "inconclusive", detail=str(e))
             continue
         u = z3.Union(l1, l2)
